@@ -10,7 +10,7 @@ use std::time::{Duration, Instant};
 use crate::case::{Case, Sink};
 use crate::rng::Rng;
 
-const CONNECT_TIMEOUT_MS: u64 = 600;
+const CONNECT_TIMEOUT_MS: u64 = 700; // not a multiple of the race interval: no ties between a timeout and a race tick
 
 pub struct Blackhole {
     _l: TcpListener,
